@@ -105,6 +105,13 @@ func checkHas(o, h fsnotify.Op) (err error) {
 	if got := (fsnotify.Event{Op: o}).Has(h); got != want {
 		return fmt.Errorf("Event{Op:%#x}.Has(%#x)=%v, want %v", uint32(o), uint32(h), got, want)
 	}
+	// the answer depends on the operations only: not on the name, and not on
+	// the old name a Create may carry
+	for _, e := range []fsnotify.Event{fsnotify.VerifMakeEvent("n", "old", o), fsnotify.VerifMakeEvent("n", "n", o), fsnotify.VerifMakeEvent("", "", o)} {
+		if got := e.Has(h); got != want {
+			return fmt.Errorf("Event %s (Op %#x) .Has(%#x)=%v, want %v", e, uint32(o), uint32(h), got, want)
+		}
+	}
 	return nil
 }
 
